@@ -655,7 +655,9 @@ package ast
 //@ extern func io.ReadFull(r, buf) (n, err)
 //@   nopanic
 //@   ensures 0 <= n && n <= len(buf) && (err == nil ==> n == len(buf))
+//@   ensures (err == nil) == (old($rPos) < $rEnd)
 //@   ghost_exit $consumed = $consumed + n
+//@   ghost_exit $rPos = ite(err == nil, $rPos + 1, $rPos)
 // io.Reader.Read may deliver FEWER bytes than asked without an error (T-IO): the raw-bytes token is consumed only by a full read
 //@ extern func (r io.Reader) Read(p) (n, err)
 //@   nopanic
@@ -1051,7 +1053,7 @@ package ast
 // ---- ConstantMeta: NodeMeta, ValueType, byte count, raw bytes, IsNil ----
 //@ func (meta *ConstantMeta) WriteMetaTo(writer) (err)
 //@   serves C12
-//@   requires meta != nil && writer != nil && 0 <= meta.ValueType
+//@   requires meta != nil && writer != nil && 0 <= meta.ValueType && meta.ValueType < 9223372036854775808
 //@   nopanic
 //@   modifies @wstream
 //@   ensures[C12] encodes: err == nil ==> $wN == old($wN) + 7 && $wK[old($wN)] == 1 && $wS[old($wN)] == meta.AstID && $wK[old($wN)+1] == 1 && $wS[old($wN)+1] == meta.GrlText && $wK[old($wN)+2] == 1 && $wS[old($wN)+2] == meta.Snapshot
